@@ -336,8 +336,8 @@ class ClassView:
             return [], []
         fa = _Flow(self)
         fa.call(root, frozenset())
-        hist = sorted(n for n in fa.reads if n in self.assigned_outside_init)
-        initd = sorted(n for n in fa.reads if n not in self.assigned_outside_init)
+        hist = sorted(x for x in fa.sites if x.split(" in ")[0] in self.assigned_outside_init or x.startswith("<"))
+        initd = sorted(n for n in fa.reads if n not in self.assigned_outside_init and not n.startswith("<"))
         return hist, initd
 
 
@@ -347,6 +347,7 @@ class _Flow:
     def __init__(self, cv):
         self.cv = cv
         self.reads = set()
+        self.sites = set()
         self.stack = []
 
     def call(self, name, da):
@@ -372,6 +373,7 @@ class _Flow:
         if name in ("__class__",):
             return
         self.reads.add(name)
+        self.sites.add(f"{name} in {self.stack[-1] if self.stack else '?'}")
 
     # -- expressions: returns the DA set after evaluation (same-class calls may assign)
     def expr(self, e, da):
@@ -400,6 +402,7 @@ class _Flow:
                     da = set(self.call("__sklearn_is_fitted__", frozenset(da)))
                 else:
                     self.reads.add("<any fitted attribute>")
+                    self.sites.add(f"<any fitted attribute> in {self.stack[-1] if self.stack else '?'}")
                 return da
             da = self.expr(e.func, da)
             for x in e.args:
